@@ -1,6 +1,733 @@
-//! engines for the MQTT v5 codec (stub)
-use super::Engine;
+//! engines for the MQTT v5 codec: "dec5" (stream decoder), "enc5" (encoder), "sniff" (version sniffing).
+//! Case / observation formats and the numeric packet dump grammar: coq/Model/EnginesV5.v.
+use std::num::{NonZeroU16, NonZeroU32};
+use std::panic::{AssertUnwindSafe, catch_unwind};
 
-pub fn lookup(_name: &str) -> Option<Engine> {
-    None
+use ntex_bytes::{BytePages, ByteString, Bytes, BytesMut};
+use ntex_codec::{Decoder, Encoder};
+use ntex_mqtt::error::{DecodeError, EncodeError};
+use ntex_mqtt::v5::codec::{
+    Auth, AuthReasonCode, Codec, Connect, ConnectAck, ConnectAckReason, Decoded, Disconnect,
+    DisconnectReasonCode, Encoded, LastWill, Packet, Publish, PublishAck, PublishAck2,
+    PublishAck2Reason, PublishAckReason, PublishProperties, QoS, RetainHandling, Subscribe,
+    SubscribeAck, SubscribeAckReason, SubscriptionOptions, Unsubscribe, UnsubscribeAck,
+    UnsubscribeAckReason, UserProperties,
+};
+
+use super::Engine;
+use crate::{Fields, bytes_of};
+
+pub fn lookup(name: &str) -> Option<Engine> {
+    match name {
+        "dec5" => Some(dec5),
+        "enc5" => Some(enc5),
+        "sniff" => Some(sniff),
+        _ => None,
+    }
+}
+
+fn de_code(e: &DecodeError) -> u64 {
+    match e {
+        DecodeError::InvalidProtocol => 1,
+        DecodeError::InvalidLength => 2,
+        DecodeError::MalformedPacket => 3,
+        DecodeError::UnsupportedProtocolLevel => 4,
+        DecodeError::ConnectReservedFlagSet => 5,
+        DecodeError::ConnAckReservedFlagSet => 6,
+        DecodeError::InvalidClientId => 7,
+        DecodeError::UnsupportedPacketType => 8,
+        DecodeError::PacketIdRequired => 9,
+        DecodeError::MaxSizeExceeded { .. } => 10,
+        DecodeError::Utf8Error => 11,
+        DecodeError::UnexpectedPayload => 12,
+    }
+}
+
+fn ee_code(e: EncodeError) -> u64 {
+    match e {
+        EncodeError::OverMaxPacketSize => 21,
+        EncodeError::OverPublishSize => 22,
+        EncodeError::PublishIncomplete => 23,
+        EncodeError::InvalidLength => 24,
+        EncodeError::MalformedPacket => 25,
+        EncodeError::PacketIdRequired => 26,
+        EncodeError::UnexpectedPayload => 27,
+        EncodeError::ExpectPayload => 28,
+        EncodeError::UnsupportedVersion => 29,
+    }
+}
+
+// ---------------------------------------------------------------- dump
+struct D(Vec<u64>);
+
+impl D {
+    fn num(&mut self, n: u64) {
+        self.0.push(n);
+    }
+    fn bool(&mut self, b: bool) {
+        self.0.push(u64::from(b));
+    }
+    fn bytes(&mut self, b: &[u8]) {
+        self.0.push(b.len() as u64);
+        self.0.extend(b.iter().map(|x| u64::from(*x)));
+    }
+    fn ostr(&mut self, s: &Option<ByteString>) {
+        match s {
+            Some(s) => {
+                self.0.push(1);
+                self.bytes(s.as_bytes());
+            }
+            None => self.0.push(0),
+        }
+    }
+    fn obytes(&mut self, s: &Option<Bytes>) {
+        match s {
+            Some(s) => {
+                self.0.push(1);
+                self.bytes(s.as_ref());
+            }
+            None => self.0.push(0),
+        }
+    }
+    fn onum(&mut self, n: Option<u64>) {
+        match n {
+            Some(n) => {
+                self.0.push(1);
+                self.0.push(n);
+            }
+            None => self.0.push(0),
+        }
+    }
+    fn uprops(&mut self, u: &UserProperties) {
+        self.0.push(u.len() as u64);
+        for (k, v) in u {
+            self.bytes(k.as_bytes());
+            self.bytes(v.as_bytes());
+        }
+    }
+    fn ack(&mut self, id: NonZeroU16, rc: u8, props: &UserProperties, rs: &Option<ByteString>) {
+        self.num(u64::from(id.get()));
+        self.num(u64::from(rc));
+        self.uprops(props);
+        self.ostr(rs);
+    }
+
+    fn publish(&mut self, p: &Publish) {
+        self.bool(p.dup);
+        self.bool(p.retain);
+        self.num(u64::from(u8::from(p.qos)));
+        self.onum(p.packet_id.map(|v| u64::from(v.get())));
+        self.bytes(p.topic.as_bytes());
+        self.num(u64::from(p.payload_size));
+        let pp = &p.properties;
+        self.onum(pp.topic_alias.map(|v| u64::from(v.get())));
+        self.obytes(&pp.correlation_data);
+        self.onum(pp.message_expiry_interval.map(|v| u64::from(v.get())));
+        self.ostr(&pp.content_type);
+        self.uprops(&pp.user_properties);
+        self.bool(pp.is_utf8_payload);
+        self.ostr(&pp.response_topic);
+        self.num(pp.subscription_ids.len() as u64);
+        for id in &pp.subscription_ids {
+            self.num(u64::from(id.get()));
+        }
+    }
+
+    fn will(&mut self, w: &LastWill) {
+        self.num(u64::from(u8::from(w.qos)));
+        self.bool(w.retain);
+        self.bytes(w.topic.as_bytes());
+        self.bytes(w.message.as_ref());
+        self.onum(w.will_delay_interval_sec.map(u64::from));
+        self.obytes(&w.correlation_data);
+        self.onum(w.message_expiry_interval.map(|v| u64::from(v.get())));
+        self.ostr(&w.content_type);
+        self.uprops(&w.user_properties);
+        self.onum(w.is_utf8_payload.map(u64::from));
+        self.ostr(&w.response_topic);
+    }
+
+    fn connect(&mut self, c: &Connect) {
+        self.bool(c.clean_start);
+        self.num(u64::from(c.keep_alive));
+        self.num(u64::from(c.session_expiry_interval_secs));
+        self.ostr(&c.auth_method);
+        self.obytes(&c.auth_data);
+        self.bool(c.request_problem_info);
+        self.bool(c.request_response_info);
+        self.onum(c.receive_max.map(|v| u64::from(v.get())));
+        self.num(u64::from(c.topic_alias_max));
+        self.uprops(&c.user_properties);
+        self.onum(c.max_packet_size.map(|v| u64::from(v.get())));
+        match &c.last_will {
+            Some(w) => {
+                self.num(1);
+                self.will(w);
+            }
+            None => self.num(0),
+        }
+        self.bytes(c.client_id.as_bytes());
+        self.ostr(&c.username);
+        self.obytes(&c.password);
+    }
+
+    fn connack(&mut self, a: &ConnectAck) {
+        self.bool(a.session_present);
+        self.num(u64::from(u8::from(a.reason_code)));
+        self.onum(a.session_expiry_interval_secs.map(u64::from));
+        self.num(u64::from(a.receive_max.get()));
+        self.num(u64::from(u8::from(a.max_qos)));
+        self.onum(a.max_packet_size.map(u64::from));
+        self.ostr(&a.assigned_client_id);
+        self.num(u64::from(a.topic_alias_max));
+        self.bool(a.retain_available);
+        self.bool(a.wildcard_subscription_available);
+        self.bool(a.subscription_identifiers_available);
+        self.bool(a.shared_subscription_available);
+        self.onum(a.server_keepalive_sec.map(u64::from));
+        self.ostr(&a.response_info);
+        self.ostr(&a.server_reference);
+        self.ostr(&a.auth_method);
+        self.obytes(&a.auth_data);
+        self.ostr(&a.reason_string);
+        self.uprops(&a.user_properties);
+    }
+
+    fn packet(&mut self, p: &Packet) {
+        match p {
+            Packet::Connect(c) => {
+                self.num(1);
+                self.connect(c);
+            }
+            Packet::ConnectAck(a) => {
+                self.num(2);
+                self.connack(a);
+            }
+            Packet::PublishAck(a) => {
+                self.num(4);
+                self.ack(a.packet_id, a.reason_code.into(), &a.properties, &a.reason_string);
+            }
+            Packet::PublishReceived(a) => {
+                self.num(5);
+                self.ack(a.packet_id, a.reason_code.into(), &a.properties, &a.reason_string);
+            }
+            Packet::PublishRelease(a) => {
+                self.num(6);
+                self.ack(a.packet_id, a.reason_code.into(), &a.properties, &a.reason_string);
+            }
+            Packet::PublishComplete(a) => {
+                self.num(7);
+                self.ack(a.packet_id, a.reason_code.into(), &a.properties, &a.reason_string);
+            }
+            Packet::Subscribe(s) => {
+                self.num(8);
+                self.num(u64::from(s.packet_id.get()));
+                self.onum(s.id.map(|v| u64::from(v.get())));
+                self.uprops(&s.user_properties);
+                self.num(s.topic_filters.len() as u64);
+                for (f, o) in &s.topic_filters {
+                    self.bytes(f.as_bytes());
+                    self.num(u64::from(u8::from(o.qos)));
+                    self.bool(o.no_local);
+                    self.bool(o.retain_as_published);
+                    self.num(u64::from(u8::from(o.retain_handling)));
+                }
+            }
+            Packet::SubscribeAck(a) => {
+                self.num(9);
+                self.num(u64::from(a.packet_id.get()));
+                self.uprops(&a.properties);
+                self.ostr(&a.reason_string);
+                self.num(a.status.len() as u64);
+                for s in &a.status {
+                    self.num(u64::from(u8::from(*s)));
+                }
+            }
+            Packet::Unsubscribe(u) => {
+                self.num(10);
+                self.num(u64::from(u.packet_id.get()));
+                self.uprops(&u.user_properties);
+                self.num(u.topic_filters.len() as u64);
+                for f in &u.topic_filters {
+                    self.bytes(f.as_bytes());
+                }
+            }
+            Packet::UnsubscribeAck(a) => {
+                self.num(11);
+                self.num(u64::from(a.packet_id.get()));
+                self.uprops(&a.properties);
+                self.ostr(&a.reason_string);
+                self.num(a.status.len() as u64);
+                for s in &a.status {
+                    self.num(u64::from(u8::from(*s)));
+                }
+            }
+            Packet::PingRequest => self.num(12),
+            Packet::PingResponse => self.num(13),
+            Packet::Disconnect(d) => {
+                self.num(14);
+                self.num(u64::from(u8::from(d.reason_code)));
+                self.onum(d.session_expiry_interval_secs.map(u64::from));
+                self.ostr(&d.server_reference);
+                self.ostr(&d.reason_string);
+                self.uprops(&d.user_properties);
+            }
+            Packet::Auth(a) => {
+                self.num(15);
+                self.num(u64::from(u8::from(a.reason_code)));
+                self.ostr(&a.auth_method);
+                self.obytes(&a.auth_data);
+                self.ostr(&a.reason_string);
+                self.uprops(&a.user_properties);
+            }
+        }
+    }
+}
+
+// ---------------------------------------------------------------- parse (None = undecodable dump)
+struct R<'a> {
+    f: &'a [u64],
+    pos: usize,
+}
+
+impl R<'_> {
+    fn num(&mut self) -> Option<u64> {
+        let v = *self.f.get(self.pos)?;
+        self.pos += 1;
+        Some(v)
+    }
+    fn num_max(&mut self, min: u64, max: u64) -> Option<u64> {
+        let v = self.num()?;
+        if v < min || v > max { None } else { Some(v) }
+    }
+    fn bool(&mut self) -> Option<bool> {
+        Some(self.num_max(0, 1)? == 1)
+    }
+    fn u16(&mut self) -> Option<u16> {
+        Some(self.num_max(0, 65535)? as u16)
+    }
+    fn nz16(&mut self) -> Option<NonZeroU16> {
+        NonZeroU16::new(self.num_max(1, 65535)? as u16)
+    }
+    fn u32(&mut self) -> Option<u32> {
+        Some(self.num_max(0, u64::from(u32::MAX))? as u32)
+    }
+    fn nz32(&mut self) -> Option<NonZeroU32> {
+        NonZeroU32::new(self.num_max(1, u64::from(u32::MAX))? as u32)
+    }
+    fn rest(&mut self) -> Option<Vec<u8>> {
+        let r = &self.f[self.pos..];
+        self.pos = self.f.len();
+        if r.iter().any(|b| *b > 255) {
+            return None;
+        }
+        Some(r.iter().map(|b| *b as u8).collect())
+    }
+    fn at_end(&self) -> bool {
+        self.pos == self.f.len()
+    }
+    fn bytes(&mut self) -> Option<Bytes> {
+        let n = self.num()?;
+        if ((self.f.len() - self.pos) as u64) < n {
+            return None;
+        }
+        let n = n as usize;
+        let r = &self.f[self.pos..self.pos + n];
+        self.pos += n;
+        if r.iter().any(|b| *b > 255) {
+            return None;
+        }
+        Some(Bytes::from(r.iter().map(|b| *b as u8).collect::<Vec<u8>>()))
+    }
+    fn str(&mut self) -> Option<ByteString> {
+        ByteString::try_from(self.bytes()?).ok()
+    }
+    fn opt<T>(&mut self, f: impl FnOnce(&mut Self) -> Option<T>) -> Option<Option<T>> {
+        match self.num()? {
+            0 => Some(None),
+            1 => Some(Some(f(self)?)),
+            _ => None,
+        }
+    }
+    fn list<T>(&mut self, mut f: impl FnMut(&mut Self) -> Option<T>) -> Option<Vec<T>> {
+        let n = self.num()?;
+        let mut out = Vec::new();
+        for _ in 0..n {
+            if self.at_end() {
+                return None;
+            }
+            out.push(f(self)?);
+        }
+        Some(out)
+    }
+    fn uprops(&mut self) -> Option<UserProperties> {
+        self.list(|r| {
+            let k = r.str()?;
+            let v = r.str()?;
+            Some((k, v))
+        })
+    }
+    fn qos(&mut self) -> Option<QoS> {
+        QoS::try_from(self.num_max(0, 255)? as u8).ok()
+    }
+
+    fn publish(&mut self) -> Option<Publish> {
+        let dup = self.bool()?;
+        let retain = self.bool()?;
+        let qos = self.qos()?;
+        let packet_id = self.opt(Self::nz16)?;
+        let topic = self.str()?;
+        let payload_size = self.u32()?;
+        let properties = PublishProperties {
+            topic_alias: self.opt(Self::nz16)?,
+            correlation_data: self.opt(Self::bytes)?,
+            message_expiry_interval: self.opt(Self::nz32)?,
+            content_type: self.opt(Self::str)?,
+            user_properties: self.uprops()?,
+            is_utf8_payload: self.bool()?,
+            response_topic: self.opt(Self::str)?,
+            subscription_ids: self.list(Self::nz32)?,
+        };
+        Some(Publish { dup, retain, qos, packet_id, topic, payload_size, properties })
+    }
+
+    fn will(&mut self) -> Option<LastWill> {
+        Some(LastWill {
+            qos: self.qos()?,
+            retain: self.bool()?,
+            topic: self.str()?,
+            message: self.bytes()?,
+            will_delay_interval_sec: self.opt(Self::u32)?,
+            correlation_data: self.opt(Self::bytes)?,
+            message_expiry_interval: self.opt(Self::nz32)?,
+            content_type: self.opt(Self::str)?,
+            user_properties: self.uprops()?,
+            is_utf8_payload: self.opt(Self::bool)?,
+            response_topic: self.opt(Self::str)?,
+        })
+    }
+
+    fn connect(&mut self) -> Option<Connect> {
+        Some(Connect {
+            clean_start: self.bool()?,
+            keep_alive: self.u16()?,
+            session_expiry_interval_secs: self.u32()?,
+            auth_method: self.opt(Self::str)?,
+            auth_data: self.opt(Self::bytes)?,
+            request_problem_info: self.bool()?,
+            request_response_info: self.bool()?,
+            receive_max: self.opt(Self::nz16)?,
+            topic_alias_max: self.u16()?,
+            user_properties: self.uprops()?,
+            max_packet_size: self.opt(Self::nz32)?,
+            last_will: self.opt(Self::will)?,
+            client_id: self.str()?,
+            username: self.opt(Self::str)?,
+            password: self.opt(Self::bytes)?,
+        })
+    }
+
+    fn connack(&mut self) -> Option<ConnectAck> {
+        Some(ConnectAck {
+            session_present: self.bool()?,
+            reason_code: ConnectAckReason::try_from(self.num_max(0, 255)? as u8).ok()?,
+            session_expiry_interval_secs: self.opt(Self::u32)?,
+            receive_max: self.nz16()?,
+            max_qos: self.qos()?,
+            max_packet_size: self.opt(Self::u32)?,
+            assigned_client_id: self.opt(Self::str)?,
+            topic_alias_max: self.u16()?,
+            retain_available: self.bool()?,
+            wildcard_subscription_available: self.bool()?,
+            subscription_identifiers_available: self.bool()?,
+            shared_subscription_available: self.bool()?,
+            server_keepalive_sec: self.opt(Self::u16)?,
+            response_info: self.opt(Self::str)?,
+            server_reference: self.opt(Self::str)?,
+            auth_method: self.opt(Self::str)?,
+            auth_data: self.opt(Self::bytes)?,
+            reason_string: self.opt(Self::str)?,
+            user_properties: self.uprops()?,
+        })
+    }
+
+    fn ack(&mut self) -> Option<PublishAck> {
+        Some(PublishAck {
+            packet_id: self.nz16()?,
+            reason_code: PublishAckReason::try_from(self.num_max(0, 255)? as u8).ok()?,
+            properties: self.uprops()?,
+            reason_string: self.opt(Self::str)?,
+        })
+    }
+
+    fn ack2(&mut self) -> Option<PublishAck2> {
+        Some(PublishAck2 {
+            packet_id: self.nz16()?,
+            reason_code: PublishAck2Reason::try_from(self.num_max(0, 255)? as u8).ok()?,
+            properties: self.uprops()?,
+            reason_string: self.opt(Self::str)?,
+        })
+    }
+
+    fn packet(&mut self) -> Option<Packet> {
+        Some(match self.num()? {
+            1 => Packet::Connect(Box::new(self.connect()?)),
+            2 => Packet::ConnectAck(Box::new(self.connack()?)),
+            4 => Packet::PublishAck(self.ack()?),
+            5 => Packet::PublishReceived(self.ack()?),
+            6 => Packet::PublishRelease(self.ack2()?),
+            7 => Packet::PublishComplete(self.ack2()?),
+            8 => Packet::Subscribe(Subscribe {
+                packet_id: self.nz16()?,
+                id: self.opt(Self::nz32)?,
+                user_properties: self.uprops()?,
+                topic_filters: self.list(|r| {
+                    let f = r.str()?;
+                    let o = SubscriptionOptions {
+                        qos: r.qos()?,
+                        no_local: r.bool()?,
+                        retain_as_published: r.bool()?,
+                        retain_handling: RetainHandling::try_from(r.num_max(0, 255)? as u8)
+                            .ok()?,
+                    };
+                    Some((f, o))
+                })?,
+            }),
+            9 => Packet::SubscribeAck(SubscribeAck {
+                packet_id: self.nz16()?,
+                properties: self.uprops()?,
+                reason_string: self.opt(Self::str)?,
+                status: self
+                    .list(|r| SubscribeAckReason::try_from(r.num_max(0, 255)? as u8).ok())?,
+            }),
+            10 => Packet::Unsubscribe(Unsubscribe {
+                packet_id: self.nz16()?,
+                user_properties: self.uprops()?,
+                topic_filters: self.list(Self::str)?,
+            }),
+            11 => Packet::UnsubscribeAck(UnsubscribeAck {
+                packet_id: self.nz16()?,
+                properties: self.uprops()?,
+                reason_string: self.opt(Self::str)?,
+                status: self
+                    .list(|r| UnsubscribeAckReason::try_from(r.num_max(0, 255)? as u8).ok())?,
+            }),
+            12 => Packet::PingRequest,
+            13 => Packet::PingResponse,
+            14 => Packet::Disconnect(Disconnect {
+                reason_code: DisconnectReasonCode::try_from(self.num_max(0, 255)? as u8).ok()?,
+                session_expiry_interval_secs: self.opt(Self::u32)?,
+                server_reference: self.opt(Self::str)?,
+                reason_string: self.opt(Self::str)?,
+                user_properties: self.uprops()?,
+            }),
+            15 => Packet::Auth(Auth {
+                reason_code: AuthReasonCode::try_from(self.num_max(0, 255)? as u8).ok()?,
+                auth_method: self.opt(Self::str)?,
+                auth_data: self.opt(Self::bytes)?,
+                reason_string: self.opt(Self::str)?,
+                user_properties: self.uprops()?,
+            }),
+            _ => return None,
+        })
+    }
+}
+
+// ---------------------------------------------------------------- codec introspection through Debug
+fn codec_state_tag(codec: &Codec) -> u64 {
+    let s = format!("{codec:?}");
+    let key = "state: Cell { value: ";
+    let i = s.find(key).expect("state in Debug output") + key.len();
+    let name: String = s[i..].chars().take_while(|c| c.is_ascii_alphabetic()).collect();
+    match name.as_str() {
+        "FrameHeader" => 0,
+        "Frame" => 1,
+        "PublishHeader" => 2,
+        "PublishProperties" => 3,
+        "PublishPayload" => 4,
+        other => panic!("unknown decoder state {other}"),
+    }
+}
+
+fn codec_npi(codec: &Codec) -> u64 {
+    let s = format!("{codec:?}");
+    let i = s.find("flags: Cell").expect("flags in Debug output");
+    u64::from(s[i..].contains("NO_PROBLEM_INFO"))
+}
+
+// ---------------------------------------------------------------- dec5
+fn dec5(c: &Fields) -> Fields {
+    if c.len() != 3 || c[0].len() != 2 {
+        return vec![vec![99]];
+    }
+    let codec = Codec::new();
+    codec.set_max_inbound_size(c[0][0] as u32);
+    codec.set_min_chunk_size(c[0][1] as u32);
+    let stream = bytes_of(&c[2]);
+
+    // pieces: cut k = "deliver everything before offset k, then decode"
+    let mut pieces: Vec<&[u8]> = Vec::new();
+    let mut cur: u64 = 0;
+    let mut rest: &[u8] = &stream;
+    for cut in &c[1] {
+        let k = std::cmp::min(cut.saturating_sub(cur), rest.len() as u64) as usize;
+        let (a, b) = rest.split_at(k);
+        pieces.push(a);
+        rest = b;
+        cur = std::cmp::max(cur, *cut);
+    }
+    pieces.push(rest);
+
+    let mut out: Fields = Vec::new();
+    let mut buf = BytesMut::new();
+    for piece in pieces {
+        buf.extend_from_slice(piece);
+        loop {
+            match codec.decode(&mut buf) {
+                Ok(Some(item)) => {
+                    let mut d = D(Vec::new());
+                    match item {
+                        Decoded::Packet(p, rl) => {
+                            d.num(1);
+                            d.num(u64::from(rl));
+                            d.packet(&p);
+                        }
+                        Decoded::Publish(p, payload, rl) => {
+                            d.num(2);
+                            d.num(u64::from(rl));
+                            d.publish(&p);
+                            d.bytes(payload.as_ref());
+                        }
+                        Decoded::PayloadChunk(chunk, eof) => {
+                            d.num(3);
+                            d.bool(eof);
+                            d.0.extend(chunk.iter().map(|b| u64::from(*b)));
+                        }
+                    }
+                    out.push(d.0);
+                }
+                Ok(None) => break,
+                Err(e) => {
+                    out.push(vec![4, de_code(&e)]);
+                    return out;
+                }
+            }
+        }
+    }
+    out.push(vec![5, buf.len() as u64, codec_state_tag(&codec), codec_npi(&codec)]);
+    out
+}
+
+// ---------------------------------------------------------------- enc5
+fn parse_op(f: &[u64]) -> Option<Encoded> {
+    let mut r = R { f, pos: 0 };
+    match r.num()? {
+        1 => {
+            let p = r.packet()?;
+            if r.at_end() { Some(Encoded::Packet(p)) } else { None }
+        }
+        2 => {
+            let has_buf = r.bool()?;
+            let p = r.publish()?;
+            let rest = r.rest()?;
+            if has_buf {
+                Some(Encoded::Publish(p, Some(Bytes::from(rest))))
+            } else if rest.is_empty() {
+                Some(Encoded::Publish(p, None))
+            } else {
+                None
+            }
+        }
+        3 => Some(Encoded::PayloadChunk(Bytes::from(r.rest()?))),
+        _ => None,
+    }
+}
+
+fn snapshot(dst: &BytePages) -> Vec<u8> {
+    let mut tmp = BytePages::default();
+    dst.copy_to(&mut tmp);
+    tmp.freeze().to_vec()
+}
+
+/// remaining length of the frame at the start of `b` (what the encoder was given as content size)
+fn frame_rl(b: &[u8]) -> u64 {
+    match ntex_mqtt::verif_hooks::decode_variable_length(&b[1..]) {
+        Ok(Some((v, _))) => u64::from(v),
+        _ => 9998,
+    }
+}
+
+fn enc5(c: &Fields) -> Fields {
+    if c.is_empty() || c[0].len() != 2 || c[0][1] > 1 {
+        return vec![vec![99]];
+    }
+    let mut ops = Vec::new();
+    for f in &c[1..] {
+        match parse_op(f) {
+            Some(op) => ops.push(op),
+            None => return vec![vec![97]],
+        }
+    }
+    let codec = Codec::new();
+    if c[0][0] != 0 {
+        codec.set_max_outbound_size(c[0][0] as u32);
+    }
+    if c[0][1] == 1 {
+        // NO_PROBLEM_INFO is only set by decoding a CONNECT with Request Problem Information = 0
+        let mut b = BytesMut::from(
+            &b"\x10\x0f\x00\x04MQTT\x05\x00\x00\x00\x02\x17\x00\x00\x00"[..],
+        );
+        match codec.decode(&mut b) {
+            Ok(Some(Decoded::Packet(Packet::Connect(_), _))) => (),
+            other => panic!("setup CONNECT not decoded: {other:?}"),
+        }
+        assert_eq!(codec_npi(&codec), 1);
+    }
+
+    let mut out: Fields = Vec::new();
+    let mut dst = BytePages::default();
+    let mut prev: Vec<u8> = Vec::new();
+    for op in ops {
+        let is_chunk = matches!(op, Encoded::PayloadChunk(_));
+        let res = catch_unwind(AssertUnwindSafe(|| codec.encodev(op, &mut dst)));
+        let Ok(res) = res else {
+            out.push(vec![9999]);
+            break;
+        };
+        let all = snapshot(&dst);
+        if all.len() != dst.len() || all.len() < prev.len() || all[..prev.len()] != prev[..] {
+            // the bytes that were in the buffer before the op have been damaged
+            out.push(vec![7777]);
+            break;
+        }
+        let appended = &all[prev.len()..];
+        let mut o = Vec::new();
+        match res {
+            Ok(()) => {
+                o.push(0);
+                o.push(if is_chunk { 0 } else { frame_rl(appended) });
+            }
+            Err(e) => {
+                o.push(1);
+                o.push(ee_code(e));
+            }
+        }
+        o.extend(appended.iter().map(|b| u64::from(*b)));
+        out.push(o);
+        prev = all;
+    }
+    out
+}
+
+// ---------------------------------------------------------------- sniff
+fn sniff(c: &Fields) -> Fields {
+    if c.len() != 1 {
+        return vec![vec![99]];
+    }
+    let mut b = BytesMut::from(&bytes_of(&c[0])[..]);
+    match ntex_mqtt::verif_hooks::sniff_version(&mut b) {
+        Ok(Some(v)) => vec![vec![0, u64::from(v)]],
+        Ok(None) => vec![vec![1]],
+        Err(e) => vec![vec![2, de_code(&e)]],
+    }
 }
